@@ -8,6 +8,9 @@ mod fp;
 mod framework;
 mod inputs;
 mod lens;
+mod mem;
+mod memcheck;
+mod planparse;
 mod refdft;
 mod util;
 mod checks;
@@ -20,12 +23,29 @@ fn usage() -> ! {
     std::process::exit(2);
 }
 
+extern "C" {
+    fn mallopt(param: i32, value: i32) -> i32;
+}
+
 fn main() {
+    // The sweeps allocate and free millions of medium-sized buffers from 16 threads; without this glibc returns
+    // memory to the kernel (munmap / trim) after every call and most of the wall time is page faults.
+    unsafe {
+        mallopt(-1, i32::MAX); // M_TRIM_THRESHOLD
+        mallopt(-2, 256 << 20); // M_TOP_PAD
+        mallopt(-3, 32 << 20); // M_MMAP_THRESHOLD (glibc caps it at 32 MiB)
+    }
     let args: Vec<String> = std::env::args().collect();
     if args.len() < 2 {
         usage();
     }
     let id = args[1].clone();
+    if id == "merge-evidence" {
+        std::process::exit(merge_evidence(&args[2..]));
+    }
+    if id == "memworker" {
+        std::process::exit(memcheck::worker_main(&args[2..]));
+    }
     let mut tier = match std::env::var("VERIF_TIER").as_deref() {
         Ok("thorough") => Tier::Thorough,
         _ => Tier::Quick,
@@ -72,6 +92,101 @@ fn main() {
         eprintln!("MACHINERY-ERROR: oracle self-check failed: {}", e);
         std::process::exit(2);
     }
-    let code = checks::dispatch(&ctx, &rest);
+    let code = match std::panic::catch_unwind(std::panic::AssertUnwindSafe(|| checks::dispatch(&ctx, &rest))) {
+        Ok(c) => c,
+        Err(_) => {
+            eprintln!("MACHINERY-ERROR: the harness itself panicked; no verdict");
+            2
+        }
+    };
     std::process::exit(code);
+}
+
+/// `rfv merge-evidence <id> <part>...`: combine the per-flavour evidence parts of one check into evidence/<id>.json
+fn merge_evidence(args: &[String]) -> i32 {
+    use util::Json;
+    let id = match args.get(0) {
+        Some(i) => i.clone(),
+        None => return 2,
+    };
+    let dir = framework::root().join("evidence");
+    let mut parts: Vec<(String, Json)> = Vec::new();
+    for p in &args[1..] {
+        let path = dir.join(format!("{}.{}.part.json", id, p));
+        match std::fs::read_to_string(&path).map_err(|e| e.to_string()).and_then(|t| Json::parse(&t)) {
+            Ok(j) => parts.push((p.clone(), j)),
+            Err(e) => {
+                eprintln!("MACHINERY-ERROR: evidence part {} unreadable: {}", path.display(), e);
+                return 2;
+            }
+        }
+    }
+    if parts.is_empty() {
+        return 2;
+    }
+    let mut cov = Json::obj();
+    let mut samples = Vec::new();
+    let mut rules = Vec::new();
+    let mut assumptions: Vec<Json> = Vec::new();
+    let mut wall = 0.0;
+    let mut violations = 0i64;
+    let sum_keys = ["evaluations", "distinct_nontrivial", "states", "transitions", "traces_validated_against_impl"];
+    let mut sums = std::collections::BTreeMap::new();
+    let mut exhaustive = true;
+    let mut per_part = Json::obj();
+    for (name, j) in &parts {
+        let c = j.get("coverage").cloned().unwrap_or(Json::obj());
+        for k in sum_keys {
+            *sums.entry(k).or_insert(0i64) += c.get(k).and_then(|v| v.as_i64()).unwrap_or(0);
+        }
+        if let Some(a) = c.get("samples").and_then(|s| s.as_arr()) {
+            for s in a.iter().take(4) {
+                samples.push(s.clone());
+            }
+        }
+        if let Some(r) = c.get("rule").and_then(|r| r.as_str()) {
+            rules.push(r.to_string());
+        }
+        if c.get("exhaustive") != Some(&Json::Bool(true)) {
+            exhaustive = false;
+        }
+        if let Some(a) = j.get("assumptions").and_then(|s| s.as_arr()) {
+            for s in a {
+                if !assumptions.contains(s) {
+                    assumptions.push(s.clone());
+                }
+            }
+        }
+        wall += match j.get("wall_s") {
+            Some(Json::Num(f)) => *f,
+            Some(Json::Int(i)) => *i as f64,
+            _ => 0.0,
+        };
+        violations += j.get("violations").and_then(|v| v.as_i64()).unwrap_or(0);
+        per_part.set(name, c);
+    }
+    for (k, v) in sums {
+        cov.set(k, v);
+    }
+    cov.set("samples", Json::Arr(samples));
+    cov.set("rule", rules.join(" || "));
+    cov.set("exhaustive", exhaustive);
+    cov.set("per_build_flavour", per_part);
+    let first = &parts[0].1;
+    let ev = Json::obj()
+        .with("property_id", id.as_str())
+        .with("tier", first.get("tier").cloned().unwrap_or(Json::Str("quick".into())))
+        .with("seed", first.get("seed").cloned().unwrap_or(Json::Int(0)))
+        .with("level", first.get("level").cloned().unwrap_or(Json::Str("model_checking".into())))
+        .with("coverage", cov)
+        .with("assumptions", Json::Arr(assumptions))
+        .with("wall_s", wall)
+        .with("violations", violations);
+    if std::fs::write(dir.join(format!("{}.json", id)), ev.to_string_pretty()).is_err() {
+        return 2;
+    }
+    for p in &args[1..] {
+        let _ = std::fs::remove_file(dir.join(format!("{}.{}.part.json", id, p)));
+    }
+    0
 }
